@@ -112,11 +112,19 @@ class AppIter:
         if S is not None and S.cur is not None:
             S.vo("app", "next")
         if self.raise_at is not None and self.i == self.raise_at:
-            raise self.ctx.exc_class("app failure in iteration")
+            raise (getattr(self, "exc_class", None) or self.ctx.exc_class)("app failure in iteration")
         if self.i >= len(self.chunks):
             raise StopIteration
         c = self.chunks[self.i]
         self.i += 1
+        if c == "sync":
+            # the application pauses in mid-stream (long poll / event stream): it goes on only once the server
+            # has pushed out everything it is obliged to push (less than send_bytes may be held back by design)
+            ch = self.ctx.chans.get(self.conn)
+            if S is not None and S.cur is not None and ch is not None:
+                sb = self.ctx.adj.send_bytes
+                S.vo("app", "sync", enabled=lambda: ch.__dict__.get("_wv_total_outbufs_len", 0) < max(sb, 1) or not ch.__dict__.get("_wv_connected", True))
+            return b""
         return c
 
     def close(self):
@@ -137,6 +145,7 @@ class Ctx:
         self.scn = scn
         self.events = []
         self.kernel = Kernel()
+        self.kernel.on_fault = self.on_fault
         self.inst = Installed(self.kernel, timeout_mode=scn.get("timeout_mode", "never"))
         self.inst.__enter__()
         try:
@@ -220,6 +229,13 @@ class Ctx:
         elif name in ("will_close", "close_when_flushed") and v:
             self.ev({"k": "flag", "c": conn, "attr": name})
 
+    def on_fault(self, name, op, e):
+        # "hard": an error that send() reports to its caller (the code reacts by deciding to close);
+        # disconnect errnos are mapped to "nothing sent" by HTTPChannel.send and decide nothing by themselves
+        from waitress.wasyncore import _DISCONNECTED
+        self.ev({"k": "fault", "c": name, "op": op, "errno": errno.errorcode.get(e, str(e)),
+                 "hard": bool(op == "send" and e not in _DISCONNECTED and e != errno.EWOULDBLOCK)})
+
     def on_write_soon(self, chan, data):
         conn = chan.__dict__.get("_wv_conn")
         try:
@@ -252,10 +268,10 @@ class Ctx:
         if spec.get("raise") == "call":
             self.ev({"k": "app_end", "c": conn, "r": k})
             raise self.exc_class("app failure at call")
-        chunks = [(b"%c" % (64 + max(k, 1))) * n for n in spec.get("chunks", [3])]
+        chunks = [n if n == "sync" else (b"%c" % (64 + max(k, 1))) * n for n in spec.get("chunks", [3])]
         headers = [("X-Req", str(k)), ("Content-Type", "text/plain")]
         cl = spec.get("cl", "exact")
-        total = sum(len(c) for c in chunks)
+        total = sum(len(c) for c in chunks if c != "sync")
         if cl == "exact":
             headers.append(("Content-Length", str(total)))
         elif cl == "larger":
@@ -271,7 +287,10 @@ class Ctx:
                     S.vo("app", "write")
                 write(c)
             chunks = []
-        return AppIter(self, conn, k, chunks, spec.get("raise_at"))
+        it = AppIter(self, conn, k, chunks, spec.get("raise_at"))
+        if spec.get("exc") == "OSError":
+            it.exc_class = OSError
+        return it
 
     # ---- client -----------------------------------------------------------
     def client_thread(self, name, c):
@@ -303,6 +322,11 @@ class Ctx:
                 # a slow reader: starts draining only after the server found the socket full
                 S.vo("client", "read", enabled=lambda: sk.blocked >= act[1] or sk.closed)
                 sk.room = None
+            elif op == "read_after_block":
+                # a slow reader that takes act[2] bytes once the server has found the socket full act[1] times
+                S.vo("client", "read", enabled=lambda: sk.blocked >= act[1] or sk.closed)
+                if sk.room is not None:
+                    sk.room += act[2]
             elif op == "eof":
                 S.vo("client", "eof")
                 sk.eof = True
